@@ -787,7 +787,7 @@ func c08LayoutOf(r *Run, rule string, fn *ssa.Function, want func(Env) []string,
 	// leaf: req.Type() → env["type"] for response builders
 	dt.Leaf = func(env Env, v ssa.Value, e *Evaluator) (int64, bool, bool) {
 		if c, ok := v.(*ssa.Call); ok {
-			if cal := calleeOf(c); cal.Static != nil && cal.Static.Name() == "Type" {
+			if cal := calleeOf(c); (cal.Static != nil && cal.Static.Name() == "Type") || (cal.Method != nil && cal.Method.Name() == "Type") {
 				val, has := env["type"]
 				return val, has, true
 			}
@@ -891,6 +891,20 @@ func c08ControlLayouts(r *Run) {
 	c08LayoutOf(r, rule, w.Fn("hsms", "NewSelectRsp"), rsp(1, 2, "$selectStatus", false), types, "false")
 	c08LayoutOf(r, rule, w.Fn("hsms", "NewDeselectRsp"), rsp(3, 4, "$deselectStatus", false), types, "false")
 	c08LayoutOf(r, rule, w.Fn("hsms", "NewLinktestRsp"), rsp(5, 6, "0", true), types, "false")
+	// NewRejectReq (the message-taking form offered to users): byte 2 is 0 for a rejected data
+	// message, else the rejected message's PType for reason 2 and its SType otherwise
+	rej := func(env Env) []string {
+		b2 := "$rejected.HeaderBytes()[5]"
+		switch {
+		case env["type"] == 0:
+			b2 = "0"
+		case env["$reasonCode"] == 2:
+			b2 = "$rejected.HeaderBytes()[4]"
+		}
+		return []string{"be16.0($rejected.SessionID())", "be16.1($rejected.SessionID())", b2, "$reasonCode", "0", "7",
+			"$rejected.SystemBytes()[0]", "$rejected.SystemBytes()[1]", "$rejected.SystemBytes()[2]", "$rejected.SystemBytes()[3]"}
+	}
+	c08LayoutOf(r, rule, w.Fn("hsms", "NewRejectReq"), rej, []dom{{"type", []int64{0, 1, 5, 7}}, {"$reasonCode", []int64{1, 2, 3, 4}}}, "false")
 }
 
 // ---------- R4 active select ----------
